@@ -46,7 +46,15 @@ def cases(tier, seed):
             kw.update(p_gw=1.0, gw_depths=(0.3, 0.6, 1.0, 1.5, 2.0))
         elif cls == 4:
             kw.update(off_season=True, p_ffm=0.8, p_bunds=0.6)
+        if cls == 4 and i % 12 == 4:
+            # bunds on the fallow field only: water ponded on the eve of planting is handed over
+            # to a season without bunds
+            kw.update(off_season=True, soil_names=["Clay", "SiltClay", "Paddy", "SandyClay"], p_custom=0.0, p_gw=0.0,
+                      regimes=["humid", "monsoon"], p_file=0.0, pre=(30, 90), seasons=(2, 3))
         sp = gen.config(rng, **kw)
+        if cls == 4 and i % 12 == 4:
+            sp["fm"] = dict(sp.get("fm") or {}, bunds=False)
+            sp["ffm"] = {"bunds": True, "z_bund": float(gen.pick(rng, [0.1, 0.2, 0.3])), "bund_water": float(gen.pick(rng, [0.0, 50.0]))}
         out.append({"spec": sp})
     return out
 
